@@ -23,7 +23,13 @@ type c14Case struct {
 
 func c14Gen(seed uint64, i int, ntexts int) *c14Case {
 	rng := gen.Derive(seed, "C14", i)
-	rg := &gen.RegexGen{R: rng, Alpha: "abc", Named: rng.Chance(1, 4), BackRefs: rng.Chance(1, 2), Anchors: true}
+	rg := &gen.RegexGen{R: rng, Alpha: "abc", Named: false, BackRefs: rng.Chance(1, 2), Anchors: true}
+	switch rng.Intn(6) {
+	case 0:
+		rg.Named = true
+	case 1, 2:
+		rg.Mixed = true
+	}
 	re := rg.Regex(2 + i%2)
 	p := &gen.Program{Commands: []gen.Command{{Amount: gen.Amount{Kind: "all"}, Body: []gen.Node{re}}}}
 	src := gen.RenderProgram(p)
@@ -79,7 +85,7 @@ func C14(r *drv.Run) {
 	r.Rule = "generated regexes of the stated subset (literals, ., bracket classes with ranges and negation, \\d \\D \\s \\S, plain/non-capturing/named groups, * + ? {m} {m,} {m,n} and lazy forms, alternations whose operands are single quantified atoms or groups, ^ $ at the ends, numbered and named back-references to closed groups; repeated bodies non-nullable), <= ~12 nodes; texts <= 14 ASCII bytes without \\r and \\f derived from the regex. Oracle 1: Go regexp given the SAME source, evaluated position by position (spans and group texts) when the regex has no back-reference. Oracle 2: reference backtracker on the harness's own translation (always; the only oracle for back-references). Non-trivial = >= 1 match expected AND VM backtracked; distinct by (regex, text)."
 	r.Assumptions = []string{
 		"Go regexp (leftmost-first) is the conventional backtracking engine on the back-reference-free subset; for back-references the harness reference matcher is",
-		"a regex never mixes named and numbered capturing groups (vore numbers only the unnamed ones)",
+		"when a regex mixes named and numbered capturing groups only named back-references are generated (vore numbers only the unnamed groups, a conventional engine numbers all of them); group texts are compared by position of the opening parenthesis",
 		"a back-reference follows the closing parenthesis of its group",
 		"known finding K2: a capturing group under a quantifier with minimum >= 1 is rejected with a name clash",
 	}
@@ -120,7 +126,10 @@ func c14Check(r *drv.Run, cs *c14Case, c *wire.Case, res *wire.Result) {
 	if cs.rg.HasBackRef {
 		r.Count("backref_cases", 1)
 	}
-	if cs.rg.Named && cs.rg.NGroups > 0 {
+	if cs.rg.Mixed && cs.rg.NGroups > 1 {
+		r.Count("mixed_named_and_numbered_cases", 1)
+	}
+	if (cs.rg.Named || cs.rg.Mixed) && cs.rg.NGroups > 0 {
 		r.Count("named_group_cases", 1)
 		if cs.rg.HasBackRef {
 			r.Count("named_backref_cases", 1)
